@@ -31,7 +31,19 @@ Proof.
   rewrite <- (SF2Prim_Prim2SF (x * y)), <- (SF2Prim_Prim2SF (y * x)), !mul_spec. f_equal. apply SFmul_comm.
 Qed.
 
-(* ---- congruence up to the commutativity of + and * ---- *)
+(* ---- x == y is symmetric (IEEE comparison; from FloatAxioms.eqb_spec and SpecFloat.SFcompare) ---- *)
+Lemma SFeqb_sym a b : SFeqb a b = SFeqb b a.
+Proof.
+  unfold SFeqb, SFcompare.
+  destruct a as [s|s| |s m e], b as [t|t| |t n g]; try reflexivity; try (destruct s, t; reflexivity); try (destruct s; reflexivity); try (destruct t; reflexivity).
+  change (Pos.compare_cont Eq m n) with (Pos.compare m n). change (Pos.compare_cont Eq n m) with (Pos.compare n m).
+  rewrite (Z.compare_antisym e g), (Pos.compare_antisym m n).
+  destruct s, t; try reflexivity; destruct (e ?= g)%Z; cbn; try reflexivity; destruct (m ?= n)%positive; reflexivity.
+Qed.
+Lemma feqb_sym x y : (x =? y) = (y =? x).
+Proof. rewrite !eqb_spec. apply SFeqb_sym. Qed.
+
+(* ---- congruence up to the commutativity of + and * and the symmetry of == ---- *)
 Lemma app_cong {A B : Type} (f g : A -> B) (a b : A) : f = g -> a = b -> f a = g b.
 Proof. intros -> ->. reflexivity. Qed.
 Ltac fcong :=
@@ -42,6 +54,8 @@ Ltac fcong :=
           first [ apply f_equal2; fcong | rewrite (fadd_comm c d); apply f_equal2; fcong ]
       | |- PrimFloat.mul ?a ?b = PrimFloat.mul ?c ?d =>
           first [ apply f_equal2; fcong | rewrite (fmul_comm c d); apply f_equal2; fcong ]
+      | |- PrimFloat.eqb ?a ?b = PrimFloat.eqb ?c ?d =>
+          first [ apply f_equal2; fcong | rewrite (feqb_sym c d); apply f_equal2; fcong ]
       | |- (if ?c then _ else _) = (if ?d then _ else _) =>
           let H := fresh in assert (H : c = d) by fcong; rewrite <- ?H; clear H; destruct c; fcong
       | |- ?f ?a = ?g ?b => apply app_cong; fcong
